@@ -147,7 +147,25 @@ theorem calleeQn_of_qn : ∀ (e : Expr) (s : String), qnStr e = some s → calle
       simp only [qnStr, Option.map_eq_some_iff] at h
       obtain ⟨b, hb, rfl⟩ := h
       simp [calleeQn, calleeQn_of_qn v b hb]
-  | .subscript .., _, h => by simpa [calleeQn] using h
+  | .subscript i v sl c, s, h => by
+      simp only [qnStr] at h
+      simp only [calleeQn]
+      cases hk : sliceKind sl with
+      | noQn => simp [hk] at h
+      | lit r =>
+          simp only [hk, Option.map_eq_some_iff] at h ⊢
+          obtain ⟨b, hb, rfl⟩ := h
+          exact ⟨b, calleeQn_of_qn v b hb, rfl⟩
+      | sub =>
+          simp only [hk] at h ⊢
+          cases hx : qnStr sl with
+          | none => simp [hx] at h
+          | some x =>
+              cases hb : qnStr v with
+              | none => simp [hx, hb] at h
+              | some b =>
+                  simp only [hx, hb] at h
+                  simp [calleeQn_of_qn sl x hx, calleeQn_of_qn v b hb, h]
   | .const .., _, h => by simp [qnStr] at h
   | .call .., _, h => by simp [qnStr] at h
   | .keyword .., _, h => by simp [qnStr] at h
@@ -204,36 +222,62 @@ theorem calleeQn_adjustCtx : ∀ (e : Expr) (ov : Option Ctx), calleeQn (adjustC
   | .attr i v a c, _ => by simp [adjustCtx, calleeQn, calleeQn_adjustCtx v]
   | .call i f as ks, _ => by
       match as, ks with
-      | [x], [] => simp [adjustCtx, adjustCtxs, calleeQn, qnStr_adjustCtx f, calleeQn_adjustCtx x]
-      | [], _ => simp [adjustCtx, adjustCtxs, calleeQn, qnStr]
-      | _ :: _ :: _, _ => simp [adjustCtx, adjustCtxs, calleeQn, qnStr]
-      | [_], _ :: _ => simp [adjustCtx, adjustCtxs, calleeQn, qnStr]
+      | [x], [] => simp [adjustCtx, adjustCtxs, calleeQn, calleeQn_adjustCtx f, calleeQn_adjustCtx x]
+      | [], _ => simp [adjustCtx, adjustCtxs, calleeQn]
+      | _ :: _ :: _, _ => simp [adjustCtx, adjustCtxs, calleeQn]
+      | [_], _ :: _ => simp [adjustCtx, adjustCtxs, calleeQn]
   | .subscript i v s c, ov => by
-      have := qnStr_adjustCtx (.subscript i v s c) ov
-      simpa [adjustCtx, calleeQn] using this
-  | .seq i k es c, _ => by cases k <;> simp [adjustCtx, calleeQn, qnStr]
-  | .const .., _ => by simp [adjustCtx, calleeQn, qnStr]
-  | .keyword .., _ => by simp [adjustCtx, calleeQn, qnStr]
-  | .boolop .., _ => by simp [adjustCtx, calleeQn, qnStr]
-  | .unary .., _ => by simp [adjustCtx, calleeQn, qnStr]
-  | .binop .., _ => by simp [adjustCtx, calleeQn, qnStr]
-  | .compare .., _ => by simp [adjustCtx, calleeQn, qnStr]
-  | .ifexp .., _ => by simp [adjustCtx, calleeQn, qnStr]
-  | .lambda .., _ => by simp [adjustCtx, calleeQn, qnStr]
-  | .starred .., _ => by simp [adjustCtx, calleeQn, qnStr]
-  | .namedexpr .., _ => by simp [adjustCtx, calleeQn, qnStr]
-  | .comp .., _ => by simp [adjustCtx, calleeQn, qnStr]
-  | .comprehension .., _ => by simp [adjustCtx, calleeQn, qnStr]
-  | .arguments .., _ => by simp [adjustCtx, calleeQn, qnStr]
-  | .arg .., _ => by simp [adjustCtx, calleeQn, qnStr]
-  | .withitem .., _ => by simp [adjustCtx, calleeQn, qnStr]
-  | .noneMarker, _ => by simp [adjustCtx, calleeQn, qnStr]
-  | .other .., _ => by simp [adjustCtx, calleeQn, qnStr]
+      simp [adjustCtx, calleeQn, sliceKind_adjustCtx, calleeQn_adjustCtx v, calleeQn_adjustCtx s]
+  | .seq i k es c, _ => by cases k <;> simp [adjustCtx, calleeQn]
+  | .const .., _ => by simp [adjustCtx, calleeQn]
+  | .keyword .., _ => by simp [adjustCtx, calleeQn]
+  | .boolop .., _ => by simp [adjustCtx, calleeQn]
+  | .unary .., _ => by simp [adjustCtx, calleeQn]
+  | .binop .., _ => by simp [adjustCtx, calleeQn]
+  | .compare .., _ => by simp [adjustCtx, calleeQn]
+  | .ifexp .., _ => by simp [adjustCtx, calleeQn]
+  | .lambda .., _ => by simp [adjustCtx, calleeQn]
+  | .starred .., _ => by simp [adjustCtx, calleeQn]
+  | .namedexpr .., _ => by simp [adjustCtx, calleeQn]
+  | .comp .., _ => by simp [adjustCtx, calleeQn]
+  | .comprehension .., _ => by simp [adjustCtx, calleeQn]
+  | .arguments .., _ => by simp [adjustCtx, calleeQn]
+  | .arg .., _ => by simp [adjustCtx, calleeQn]
+  | .withitem .., _ => by simp [adjustCtx, calleeQn]
+  | .noneMarker, _ => by simp [adjustCtx, calleeQn]
+  | .other .., _ => by simp [adjustCtx, calleeQn]
+
+theorem ldName_adjustCtx : ∀ (e : Expr) (ov : Option Ctx), ldName (adjustCtx ov e) = ldName e
+  | .name .., _ => by simp [adjustCtx, ldName]
+  | .call i f as ks, _ => by
+      match as, ks with
+      | [x], [] => simp [adjustCtx, adjustCtxs, ldName, calleeQn_adjustCtx f, ldName_adjustCtx x]
+      | [], _ => simp [adjustCtx, adjustCtxs, ldName]
+      | _ :: _ :: _, _ => simp [adjustCtx, adjustCtxs, ldName]
+      | [_], _ :: _ => simp [adjustCtx, adjustCtxs, ldName]
+  | .seq i k es c, _ => by cases k <;> simp [adjustCtx, ldName]
+  | .attr .., _ => by simp [adjustCtx, ldName]
+  | .subscript .., _ => by simp [adjustCtx, ldName]
+  | .const .., _ => by simp [adjustCtx, ldName]
+  | .keyword .., _ => by simp [adjustCtx, ldName]
+  | .boolop .., _ => by simp [adjustCtx, ldName]
+  | .unary .., _ => by simp [adjustCtx, ldName]
+  | .binop .., _ => by simp [adjustCtx, ldName]
+  | .compare .., _ => by simp [adjustCtx, ldName]
+  | .ifexp .., _ => by simp [adjustCtx, ldName]
+  | .lambda .., _ => by simp [adjustCtx, ldName]
+  | .starred .., _ => by simp [adjustCtx, ldName]
+  | .namedexpr .., _ => by simp [adjustCtx, ldName]
+  | .comp .., _ => by simp [adjustCtx, ldName]
+  | .comprehension .., _ => by simp [adjustCtx, ldName]
+  | .arguments .., _ => by simp [adjustCtx, ldName]
+  | .arg .., _ => by simp [adjustCtx, ldName]
+  | .withitem .., _ => by simp [adjustCtx, ldName]
+  | .noneMarker, _ => by simp [adjustCtx, ldName]
+  | .other .., _ => by simp [adjustCtx, ldName]
 
 theorem isNameOf_adjustCtx (s : String) (ov : Option Ctx) (e : Expr) : isNameOf s (adjustCtx ov e) = isNameOf s e := by
-  cases e <;> simp [adjustCtx, isNameOf]
-  rename_i i k es c
-  cases k <;> simp [adjustCtx]
+  simp [isNameOf, ldName_adjustCtx e ov]
 
 theorem length_adjustCtxs (ov : Option Ctx) : ∀ (es : List Expr), (adjustCtxs ov es).length = es.length
   | [] => by simp [adjustCtxs]
@@ -298,8 +342,8 @@ theorem offEs_nil_append (cfg : Cfg) (sc : List String) (w : Bool) :
 
 theorem tupleCall_CF (cfg : Cfg) (sc : List String) (w : Bool) (v : Expr) (hv : CF (offE cfg sc w .normal v)) :
     CF (offE cfg sc w .packA (.call 0 (nm "tuple") [v] [])) := by
-  have h1 : callOk cfg sc w .packA (nm "tuple") [v] [] = true := by simp [callOk, packOk, isNameOf, nm]
-  have h2 : argPositions ((qnStr (nm "tuple")).getD "") = [] := by decide
+  have h1 : callOk cfg sc w .packA (nm "tuple") [v] [] = true := by simp [callOk, packOk, isNameOf, ldName, nm]
+  have h2 : argPositions ((calleeQn (nm "tuple")).getD "") = [] := by decide
   have h3 : offE cfg sc w .normal (nm "tuple") = [] := by simp [nm, offE]
   simp only [offE, h1, h2, h3, if_true, offEs, headPos, List.nil_append, List.append_nil]
   exact hv
@@ -363,8 +407,8 @@ theorem kwargsToDict_CF (cfg : Cfg) (sc : List String) (w : Bool) (kws : List Ex
   unfold CallTrees.kwargsToDict
   split
   · simp [noneConst, offE, CF_nil]
-  · have h1 : callOk cfg sc w .packK (nm "dict") [] kws = true := by simp [callOk, packOk, isNameOf, nm]
-    have h2 : argPositions ((qnStr (nm "dict")).getD "") = [] := by decide
+  · have h1 : callOk cfg sc w .packK (nm "dict") [] kws = true := by simp [callOk, packOk, isNameOf, ldName, nm]
+    have h2 : argPositions ((calleeQn (nm "dict")).getD "") = [] := by decide
     have h3 : offE cfg sc w .normal (nm "dict") = [] := by simp [nm, offE]
     simp only [offE, h1, h3, if_true, offEs, List.nil_append]
     exact h
@@ -379,8 +423,8 @@ theorem convertedCall_CF (cfg : Cfg) (sc : List String) (w : Bool) (pos : Pos) (
       [tmplArg f, tmplArg (CallTrees.argsToTuple as), tmplArg (CallTrees.kwargsToDict ks), nm ctx] [] = true := by
     have : startsWith "ag__.converted_call" "ag__." = true := by decide
     simp [callOk, hq, allowedCallee, this]
-  have hp : argPositions ((qnStr (ag "converted_call")).getD "") = [.normal, .packA, .packK] := by
-    rw [hq']; decide
+  have hp : argPositions ((calleeQn (ag "converted_call")).getD "") = [.normal, .packA, .packK] := by
+    rw [hq]; decide
   have h3 : offE cfg sc w .normal (ag "converted_call") = [] := by simp [ag, nm, offE]
   have h4 : offE cfg sc w .normal (nm ctx) = [] := by simp [nm, offE]
   simp only [offE, hok, hp, h3, if_true, List.nil_append]
